@@ -7,10 +7,13 @@
 package memdev
 
 import (
+	"bufio"
 	"crypto/sha256"
+	"encoding/binary"
 	"errors"
 	"io"
 	"io/fs"
+	"os"
 	"runtime"
 	"sort"
 	"sync"
@@ -431,4 +434,59 @@ func (d *Dev) ResetLog() {
 	defer d.mu.Unlock()
 	d.log = nil
 	d.Outside = nil
+}
+
+// Save writes the touched pages to a file; Load restores a device from it (exact bytes,
+// so that parent and child processes work on the same image).
+func (d *Dev) Save(path string) error {
+	d.mu.Lock()
+	defer d.mu.Unlock()
+	f, err := os.Create(path)
+	if err != nil {
+		return err
+	}
+	defer f.Close()
+	w := bufio.NewWriter(f)
+	hdr := make([]byte, 16)
+	binary.LittleEndian.PutUint64(hdr[0:8], uint64(d.size))
+	binary.LittleEndian.PutUint64(hdr[8:16], uint64(len(d.pages)))
+	w.Write(hdr)
+	for i, p := range d.pages {
+		binary.LittleEndian.PutUint64(hdr[0:8], uint64(i))
+		w.Write(hdr[0:8])
+		w.Write(p)
+	}
+	return w.Flush()
+}
+
+func Load(path string) (*Dev, error) {
+	b, err := os.ReadFile(path)
+	if err != nil {
+		return nil, err
+	}
+	if len(b) < 16 {
+		return nil, errors.New("memdev: short image file")
+	}
+	d := New(int64(binary.LittleEndian.Uint64(b[0:8])))
+	n := int(binary.LittleEndian.Uint64(b[8:16]))
+	b = b[16:]
+	for k := 0; k < n; k++ {
+		if len(b) < 8+pageSize {
+			return nil, errors.New("memdev: truncated image file")
+		}
+		i := int64(binary.LittleEndian.Uint64(b[0:8]))
+		d.pages[i] = append([]byte(nil), b[8:8+pageSize]...)
+		b = b[8+pageSize:]
+	}
+	return d, nil
+}
+
+// Poke overwrites bytes without logging (fault injection); Peek reads without counting.
+func (d *Dev) Poke(off int64, p []byte) {
+	d.mu.Lock()
+	defer d.mu.Unlock()
+	ro := d.ReadOnly
+	d.ReadOnly = false
+	d.writeLocked(p, off)
+	d.ReadOnly = ro
 }
